@@ -120,6 +120,9 @@ var storeCtxAll bool
 // qCancelAll makes the cancel/block faults of enumerateFaults cancel through Query.Cancel.
 var qCancelAll bool
 
+// qCloseAll: the cancel/block faults call Query.Close while Exec is running.
+var qCloseAll bool
+
 // ownErrAll: the context-honouring storage reports aborted calls with an error of its own.
 var ownErrAll bool
 
@@ -173,7 +176,7 @@ func enumerateFaults(c *check.Ctx, prop, sub string, kinds map[string]bool, acti
 	c.Rep.Bounds[sub+":actions"] = actions
 	for _, v := range vs {
 		for _, w := range windows {
-			cs := &core.Case{Q: v.q, Data: data, W: w, O: core.Opts{Optimizers: "none"}, Note: sub, StoreCtx: storeCtxAll, QCancel: qCancelAll, StoreOwnErr: ownErrAll}
+			cs := &core.Case{Q: v.q, Data: data, W: w, O: core.Opts{Optimizers: "none"}, Note: sub, StoreCtx: storeCtxAll, QCancel: qCancelAll, QClose: qCloseAll, StoreOwnErr: ownErrAll}
 			if v.ndist > 0 {
 				cs.NDist = v.ndist
 				cs.Dist = []int{0, 1, 0, 1, 0, 1, 0, 1}
@@ -432,6 +435,7 @@ func init() {
 	check.Replayers["enum:C14/cancel+storectx"] = faultReplayer(c14EnumOracle)
 	check.Replayers["enum:C14/qcancel+storectx"] = faultReplayer(c14EnumOracle)
 	check.Replayers["enum:C14/qcancel+ownerr"] = faultReplayer(c14EnumOracle)
+	check.Replayers["enum:C14/qclose+storectx"] = faultReplayer(c14EnumOracle)
 	check.Replayers["enum:C14/cancel+ownerr"] = faultReplayer(c14EnumOracle)
 
 	windows := []core.Window{core.Range(10000, 30000, 12), core.Instant(45000), core.Range(0, 45000, 3)}
@@ -472,6 +476,12 @@ func init() {
 		qCancelAll = true
 		defer func() { qCancelAll = false }()
 		enumerateFaults(c, "C14", "C14/qcancel+storectx", allKinds, []string{"cancel", "block"}, c14EnumOracle, windows[:2], true)
+		// through Query.Close while Exec is running (native queries only: closing a query of
+		// the Prometheus engine twice is not allowed, and the runner closes it at the end)
+		qCancelAll, qCloseAll = false, true
+		defer func() { qCloseAll = false }()
+		enumerateFaults(c, "C14", "C14/qclose+storectx", allKinds, []string{"block", "cancel"}, c14EnumOracle, windows[:2], false)
+		qCancelAll, qCloseAll = true, false
 		// and over a storage that reports the aborted call with an error of its own: what
 		// Exec returns is still the context's error
 		ownErrAll = true
